@@ -762,6 +762,34 @@ func cmdCheck(args []string) int {
 		if hashBad > 0 {
 			ok = 0
 		}
+		if ok < 2 && pc.race && v.Violation.Clause == "data-race" && hashBad == 0 && !bytes.Equal(final, raw) {
+			// The minimiser accepts a smaller scenario as soon as one execution of it
+			// shows the class; for a race report that can be a lucky one. Fall back to
+			// the run as it was found.
+			var rf0 ReplayFile
+			json.Unmarshal(raw, &rf0)
+			rf0.Tree = tree
+			final0, _ := json.MarshalIndent(rf0, "", " ")
+			os.WriteFile(path, final0, 0o644)
+			ok = 0
+			for i := 0; i < attempts && ok < 2; i++ {
+				rraw, _, err := b.oneShot(Spec{Mode: "replay", Replay: path}, fmt.Sprintf("rep%d-o%d", len(seen), i), 120*time.Second)
+				if err != nil {
+					continue
+				}
+				var ro struct {
+					Reproduced bool `json:"reproduced"`
+					SameHash   bool `json:"same_hash"`
+				}
+				json.Unmarshal(rraw, &ro)
+				if ro.Reproduced && ro.SameHash {
+					ok++
+				}
+			}
+			if ok >= 2 {
+				rf = rf0
+			}
+		}
 		if ok < 2 && (pc.race && v.Violation.Clause == "data-race" && hashBad == 0 || detMismatch) {
 			// The schedule replayed identically but the detector stayed silent (its
 			// verdict is not a pure function of the schedule, see above) — or runs in
